@@ -148,9 +148,16 @@ def build(rng):
             if cont < 0:
                 used.append(num)
             payload = struct.pack('>hh', num, cont) + bytes(rng.choice(b'abc xyz') for _ in range(rng.randrange(0, 8)))
-            ridx = add(b'Lscr', payload)
-            refs.append([rng.randrange(0, 100), ridx, 0])
+            refs.append([rng.randrange(0, 100), payload, 0])
             scripts.append((num, cont))
+        # resource ids in any order relative to the script context (Director recycles free memory-map entries)
+        perm = list(range(len(refs)))
+        rng.shuffle(perm)
+        ids = {}
+        for i in perm:
+            ids[i] = add(b'Lscr', refs[i][1])
+        for i in range(len(refs)):
+            refs[i][1] = ids[i]
         if rng.random() < 0.3:
             refs.insert(rng.randrange(len(refs) + 1), [0, -1, 0])
         lc = {'kind': 'lctx', 'hdr': [0, 0], 'ns2': len(refs), 'gap': rng.choice([0, 4]), 'entries': refs}
